@@ -200,12 +200,30 @@ Definition ok_contig (c : case) : bool :=
     not older than max_seconds. *)
 Fixpoint forall_idx {A : Type} (p : N -> A -> bool) (i : N) (l : list A) : bool :=
   match l with [] => true | x :: r => p i x && forall_idx p (i + 1) r end.
+(** Length of the leading run of protected deltas. *)
+Fixpoint protected_run (c : cfg) (now : Z) (i : N) (l : list ddata) : N :=
+  match l with
+  | d :: r => if protected c now i d then 1 + protected_run c now (i + 1) r else 0
+  | [] => 0
+  end.
+(** protected_prefix_kept: the new delta and the leading protected old ones are retained, as far
+    as the size rule lets them. *)
+Definition keeps_protected (sizes : list (N * N)) (pre post : rrdp) (cf : cfg) (now : Z) : bool :=
+  match r_deltas post with
+  | [] => true   (* the size rule cut even the new delta *)
+  | dn :: _ =>
+      let p := protected_run cf now 0 (r_deltas pre) in
+      let cand := dn :: firstn (N.to_nat p) (r_deltas pre) in
+      N.min (p + 1) (size_loop (size_fun sizes) (objects_size (size_fun sizes) (r_snapshot post)) cand 0 0)
+      <=? N.of_nat (length (r_deltas post))
+  end.
 Definition ok_retention (c : case) : bool :=
   match c with
-  | KTrans _ pre OUpdate orc (Some post) strict =>
+  | KTrans sizes pre OUpdate orc (Some post) strict =>
       if staged_nonempty (r_st pre) then
         let cf := or_cfg orc in let now := or_now orc in
         let n := N.of_nat (length (r_deltas post)) in
+        keeps_protected sizes pre post cf now &&
         if strict then n <=? c_max_nr cf
         else (if (1 <=? c_max_nr cf)
                  && match nth_error (r_deltas pre) (N.to_nat (c_max_nr cf - 1)) with
